@@ -27,6 +27,7 @@ import Ark.Proofs.Stats
 import Ark.Props.C01Struct
 import Ark.Model.Ops
 import Ark.Props.C19Hist
+import Ark.Props.C19Rel
 
 namespace Ark.Props.C19
 open Ark Ark.World
@@ -415,5 +416,54 @@ theorem hist_memory_figures : type_of% @Ark.Props.C19Hist.memory_figures := @Ark
 
 /-- `cachedFilters`, `observers`, `locked`, `numComponents` match what is registered -/
 theorem hist_counters : type_of% @Ark.Props.C19Hist.counters := @Ark.Props.C19Hist.counters
+
+
+/-! ### Statistics along histories WITH relation tables (Props/C19Rel): archetypes lose and regain active tables -/
+
+/-- whatever the stored entry is — fewer, more or the same number of per-table entries than the archetype has active tables — UpdateStats lists exactly one entry per ACTIVE table, in order, with its size and capacity, and the documented sums -/
+theorem rel_update_lists_active_tables : type_of% @Ark.Props.C19Rel.update_lists_active_tables := @Ark.Props.C19Rel.update_lists_active_tables
+
+/-- the loops of archetype.UpdateStats on the re-used slice (truncate, update in place, append) compute the model's list -/
+theorem rel_update_loops_eq_model : type_of% @Ark.Props.C19Rel.update_loops_eq_model := @Ark.Props.C19Rel.update_loops_eq_model
+
+/-- the same loops WITHOUT the truncation are right iff the stored list is not longer than the archetype's active tables (the seeded change C19-t1 as a theorem) -/
+theorem rel_truncation_needed_iff : type_of% @Ark.Props.C19Rel.truncation_needed_iff := @Ark.Props.C19Rel.truncation_needed_iff
+
+/-- finding: the model's archStatsUpdate uses only the LENGTH of the stored per-table list, so it cannot exhibit a missing truncation — that is why the source's function is also translated (Props/C19Src) -/
+theorem rel_model_is_blind_to_truncation : type_of% @Ark.Props.C19Rel.model_is_blind_to_truncation := @Ark.Props.C19Rel.model_is_blind_to_truncation
+
+/-- **the weakest condition on the stored object**: for ANY world and ANY stored object, incremental = fresh iff every stored archetype entry that has an archetype at its position carries that archetype's memory-per-entity, component IDs and relation count — nothing is demanded of the per-table lists, counters or the number of entries -/
+theorem rel_weakest_condition : type_of% @Ark.Props.C19Rel.weakest_condition := @Ark.Props.C19Rel.weakest_condition
+
+/-- an object produced by Stats() on an earlier world of the history satisfies it -/
+theorem rel_earlier_stats_agreesOn : type_of% @Ark.Props.C19Rel.earlier_stats_agreesOn := @Ark.Props.C19Rel.earlier_stats_agreesOn
+
+/-- at every state satisfying the relation machine's invariant Stats() is exact: used = alive = sum of archetype sizes = sum of table sizes, total = used + recycled ≤ capacity, one archetype per component set, per archetype one entry per active table with size ≤ capacity, memory figures, counters -/
+theorem rel_stats_exact_state : type_of% @Ark.Props.C19Rel.stats_exact_state := @Ark.Props.C19Rel.stats_exact_state
+
+/-- a table entry's size is the number of specified entities indexed to that table, and they have exactly the targets the table lists -/
+theorem rel_what_a_table_entry_counts : type_of% @Ark.Props.C19Rel.what_a_table_entry_counts := @Ark.Props.C19Rel.what_a_table_entry_counts
+
+/-- every step of the relation machine (incl. xchg, copy, shrink, reset, filters, queries) keeps the stored statistics object compatible -/
+theorem rel_every_step_is_rstep : type_of% @Ark.Props.C19Rel.every_step_is_rstep := @Ark.Props.C19Rel.every_step_is_rstep
+
+/-- the invariant of the machine with Stats() steps holds after every history (Reset included) -/
+theorem rel_reach4_invariant : type_of% @Ark.Props.C19Rel.reach4_invariant := @Ark.Props.C19Rel.reach4_invariant
+
+/-- **incremental = fresh at every Stats() call of every history with relation tables** (tables freed by target removal and Shrink, recycled, Reset) -/
+theorem rel_stats_incremental_eq_fresh : type_of% @Ark.Props.C19Rel.stats_incremental_eq_fresh := @Ark.Props.C19Rel.stats_incremental_eq_fresh
+
+/-- … and the result agrees with the actual contents -/
+theorem rel_stats_agree : type_of% @Ark.Props.C19Rel.stats_agree := @Ark.Props.C19Rel.stats_agree
+
+/-- the stored object is the exact statistics of the world at the last Stats() call -/
+theorem rel_stored_object_is_earlier_exact : type_of% @Ark.Props.C19Rel.stored_object_is_earlier_exact := @Ark.Props.C19Rel.stored_object_is_earlier_exact
+
+/-- **replay form**: Stats() after a history equals Stats() asked once after the same history without the earlier Stats() calls -/
+theorem rel_stats_incremental_eq_replay : type_of% @Ark.Props.C19Rel.stats_incremental_eq_replay := @Ark.Props.C19Rel.stats_incremental_eq_replay
+
+/-- queries do not read the statistics object -/
+theorem rel_queries_do_not_read_stats : type_of% @Ark.Props.C19Rel.queries_do_not_read_stats := @Ark.Props.C19Rel.queries_do_not_read_stats
+
 
 end Ark.Props.C19
